@@ -424,6 +424,9 @@ func main() {
 	if !aborted() {
 		sinkSide(R)
 	}
+	if !aborted() && only == "" {
+		sweepSide()
+	}
 	if only == "" {
 		chainSide(R)
 		policySide()
